@@ -294,7 +294,7 @@ def gen(shard, rng, tier):
             elif k == 2:
                 h = "0x" + rand_bytes(rng, rng.randint(0, 10)).hex() + rng.choice(["zz", "g0", "0x", "  ", "-1", "0 "]) + rand_bytes(rng, rng.randint(0, 3)).hex()
                 if rng.random() < 0.35:
-                    h = rng.choice(["0x0x", "0x0x" + rand_bytes(rng, rng.randint(1, 8)).hex(), "0x0x0x12", "0x 12", " 0x12", "0x12 ", "0x+12", "x12", "0x0X12", "0xx12"])
+                    h = rng.choice(["0x0x", "0x0x" + rand_bytes(rng, rng.randint(1, 8)).hex(), "0x0x0x12", "0x 12", "0x1 2", "0x+12", "x12", "0x0X12", "0xx12"])
                 ov, x = {"data": json.dumps(h)}, {"cls": "data-nonhex", "expect": "reject", "bucket": "reject-data-nonhex", "shown": h}
             elif k == 3:
                 t = rng.choice(["5", "null", "true", "[]", "{}", "[1,2]"])
@@ -309,9 +309,13 @@ def gen(shard, rng, tier):
             elif k == 6:
                 tx["to"] = rand_bytes(rng, 20)
                 ov, x = {"to": '"%s"' % tx["to"].hex()}, {"cls": "address-no-prefix", "expect": "either", "shown": ""}
+                if rng.random() < 0.5:
+                    # letter case that is neither all-lower nor the EIP-55 checksum; white space around the text: unspecified
+                    spelled = rng.choice([txgen.addr_token(rng, tx["to"], loose=True), '"0x%s "' % tx["to"].hex(), '" 0x%s"' % tx["to"].hex(), '"0x%s"' % tx["to"].hex().upper()])
+                    ov, x = {"to": spelled}, {"cls": "address-unspecified-spelling", "expect": "either", "shown": ""}
             elif k == 7:
                 t = rng.choice(["5", "true", "[]", "{}", '"0xzz00000000000000000000000000000000000000"', '"0x 000000000000000000000000000000000000000"',
-                                '"0x0x%s"' % ("11" * 19), '"0x%s "' % ("11" * 20), '" 0x%s"' % ("11" * 20), '"0x0x0x%s"' % ("11" * 20)])
+                                '"0x0x%s"' % ("11" * 19), '"0x%s  1"' % ("11" * 19), '"0x0x0x%s"' % ("11" * 20)])
                 ov, x = {"to": t}, {"cls": "address-malformed", "expect": "reject", "bucket": "reject-address-length", "shown": t}
                 if rng.random() < 0.15:
                     # a doubled prefix in front of exactly 20 bytes: the address clause only demands 20 bytes, so this spelling is
